@@ -16,10 +16,16 @@ Notation wfr_mk := SLane_proofs.wfr_mk.
 Notation merged_same := SLane_proofs.merged_same.
 
 (* ---------------------------------------------------------------- one more field specification *)
-(* dispatch_resume's loop on a source (is_source = 1: no lock hand-off), suspend field = inline count only *)
-Lemma resume_src_fields r : wfr r -> f_hi r mod 8 = 0 ->
+(* the suspend field of a source: the inline suspend count (units of 8), possibly with {INACTIVE, NEEDS_ACTIVATION} (3)
+   of a source not yet activated or NEEDS_ACTIVATION alone (1) while dispatch_activate found it suspended; never the side
+   counter bit *)
+Definition hi_ok (h : Z) : Prop := h mod 8 = 0 \/ h mod 8 = 1 \/ h mod 8 = 3.
+
+(* dispatch_resume's loop on a source (is_source = 1: no lock hand-off; an inactive source is activated) *)
+Lemma resume_src_fields r : wfr r -> hi_ok (f_hi r) ->
   resume_loop 0 0 (enc r) 1 0 0 =
-  if f_hi r <? 8 then NoCommit 2 []
+  if (f_hi r =? 9) || (f_hi r =? 3) then Commit (enc (set_hi r 8)) 0
+  else if f_hi r <? 8 then NoCommit 2 []
   else let r2 := set_hi r (f_hi r - 8) in
        if runnable_b r2 && (f_owner r =? 0)
        then Commit (enc (mk 0 0 (f_enq r) 0 0 (f_role r) (f_em r) (f_d r) (f_pb r) (f_wq r) (f_ib r) (f_hi r - 8))) 0
@@ -27,11 +33,22 @@ Lemma resume_src_fields r : wfr r -> f_hi r mod 8 = 0 ->
 Proof.
   intros W H8. pose proof W as W'. unfold wfr in W'. pose proof (enc_range r W) as R.
   unfold resume_loop. rewrite land_suspend_bits_f by exact W.
-  destruct (Z.eqb_spec (36028797018963968 * f_hi r) 324259173170675712) as [E|_].
-  { exfalso. assert (f_hi r = 9) by lia. rewrite H in H8. discriminate. }
-  destruct (Z.eqb_spec (36028797018963968 * f_hi r) 108086391056891904) as [E|_].
-  { exfalso. assert (f_hi r = 3) by lia. rewrite H in H8. discriminate. }
-  change (nz 1) with true. cbn [andb negb]. cbv zeta.
+  destruct (Z.eqb_spec (f_hi r) 9) as [H9|H9].
+  { rewrite H9. change (36028797018963968 * 9 =? 324259173170675712) with true. cbv iota zeta. cbn [orb].
+    assert (L : 36028797018963968 * 9 <= enc r) by (rewrite enc_linear; lia).
+    rewrite u64_id'' by lia. f_equal. rewrite enc_set_hi. lia. }
+  destruct (Z.eqb_spec (36028797018963968 * f_hi r) 324259173170675712) as [E|_]; [exfalso; lia|].
+  change (nz 1) with true. cbn [andb orb].
+  destruct (Z.eqb_spec (f_hi r) 3) as [H3|H3].
+  { rewrite H3. change (36028797018963968 * 3 =? 108086391056891904) with true. cbv iota zeta.
+    pose proof (enc_range (set_hi r 8) (set_hi_wf r 8 W ltac:(lia))) as R8.
+    assert (L : 36028797018963968 * 3 <= enc r) by (rewrite enc_linear; lia).
+    assert (E : enc (set_hi r 8) = enc r + 36028797018963968 * 5) by (rewrite enc_set_hi; lia).
+    rewrite (u64_id'' (enc r - 72057594037927936)) by lia.
+    rewrite (u64_id'' (enc r - 72057594037927936 - 36028797018963968)) by lia.
+    rewrite u64_id'' by lia. f_equal. lia. }
+  destruct (Z.eqb_spec (36028797018963968 * f_hi r) 108086391056891904) as [E|_]; [exfalso; lia|].
+  cbv zeta.
   destruct (Z.ltb_spec (f_hi r) 8) as [Hlt|Hge].
   - assert (B : enc r - 288230376151711744 < 0) by (rewrite enc_linear; lia).
     destruct (Z.eqb_spec (u64 (enc r - 288230376151711744)) (enc r - 288230376151711744)) as [E|E].
@@ -83,8 +100,8 @@ Definition OWN := 18014398509481984 + 2199023255552 + 2147483648.
 
 Definition locked_pc (p : pc) : bool :=
   match p with
-  | PW_susp _ | PW_flags _ | PW_pend _ | PW_latch _ | PW_call _ _ | PW_incall _ | PW_post _ | PW_post2 _ | PW_unlock _
-  | PW_xor _ | PW_fin _ => true
+  | PW_inst _ | PW_susp _ | PW_flags _ | PW_pend _ | PW_latch _ | PW_call _ _ | PW_incall _ | PW_post _ | PW_post2 _
+  | PW_unlock _ | PW_xor _ | PW_fin _ => true
   | _ => false
   end.
 Definition token_pc (p : pc) : bool := locked_pc p || match p with PW_lock _ | PS_rootpush => true | _ => false end.
@@ -95,13 +112,14 @@ Definition examined_pc (p : pc) : bool :=
   match p with PW_call _ _ | PW_incall _ | PW_post _ | PW_post2 _ | PW_unlock _ | PW_xor _ => true | _ => false end.
 Definition owned_of (p : pc) : option Z :=
   match p with
-  | PW_susp o | PW_flags o | PW_pend o | PW_latch o | PW_call o _ | PW_incall o | PW_post o | PW_post2 o | PW_unlock o
-  | PW_xor o | PW_fin o => Some o
+  | PW_inst o | PW_susp o | PW_flags o | PW_pend o | PW_latch o | PW_call o _ | PW_incall o | PW_post o | PW_post2 o
+  | PW_unlock o | PW_xor o | PW_fin o => Some o
   | _ => None
   end.
 Definition qos_of (p : pc) : option Z :=
   match p with
-  | PM_flags _ q | PM_op _ q | PS_flags q | PS_pend q | PS_wake q | PC_set q | PR_rmw q | PR_flags q | PR_pend q | PR_wake q => Some q
+  | PM_flags _ q | PM_op _ q | PS_flags q | PS_pend q | PS_wake q | PC_set q | PR_rmw q | PR_flags q | PR_pend q | PR_wake q
+  | PA_rmw q | PA_role q => Some q
   | _ => None
   end.
 Definition latched_pc (p : pc) : Z := match p with PW_call _ x => x | _ => 0 end.
@@ -124,7 +142,7 @@ Record ginv_r (k : dkind) (s : gst) (r : dqf) : Prop := {
   g_tr : f_tr r = 0;
   g_em : f_em r = 0;
   g_pb : f_pb r = 0;
-  g_hi : f_hi r mod 8 = 0;                 (* activated source, inline suspend count only *)
+  g_hi : hi_ok (f_hi r);
   g_role : f_role r < 2;
   g_enq : f_enq r = 1 <-> token s <> None;
   g_rootq : rootq s = (match token s with Some None => 1 | _ => 0 end);
@@ -153,23 +171,21 @@ Proof.
   intros Hrb. split.
   - exists (mk 0 0 0 0 0 rb 0 0 0 4095 0 0). unfold init_state.
     constructor; cbn [st pend cancelled rootq pcs token wakers rwakers latched running merged dropped delivered];
-      unfold mk; cbn [f_tr f_em f_pb f_hi f_role f_enq f_d]; try lia; try congruence; try reflexivity.
+      unfold mk; cbn [f_tr f_em f_pb f_hi f_role f_enq f_d]; try lia; try congruence; try reflexivity; try (left; reflexivity).
     + rewrite enc_linear; cbn [f_owner f_tr f_enq f_mq f_ov f_role f_em f_d f_pb f_wq f_ib f_hi];
       rewrite Z.shiftl_mul_pow2 by lia; change (2^41) with 2199023255552; lia.
     + unfold wfr; cbn [f_owner f_tr f_enq f_mq f_ov f_role f_em f_d f_pb f_wq f_ib f_hi]; repeat split; lia.
     + split; [discriminate | congruence].
     + unfold free; cbn; auto.
-    + constructor.
-    + constructor.
     + apply data_ok_init.
   - intros t. unfold thread_inv, init_state; cbn. repeat split; intros; try discriminate; try contradiction.
 Qed.
 
 (* ---------------------------------------------------------------- frame lemmas *)
-Ltac sproj := cbn [st pend cancelled rootq pcs token wakers rwakers latched running merged dropped delivered
-                   set_pc set_st set_rootq set_token set_wakers set_rwakers].
-Ltac sproj_in H := cbn [st pend cancelled rootq pcs token wakers rwakers latched running merged dropped delivered
-                        set_pc set_st set_rootq set_token set_wakers set_rwakers] in H.
+Ltac sproj := cbn [st pend cancelled installed rootq pcs token wakers rwakers latched running merged dropped delivered
+                   set_pc set_st set_rootq set_token set_wakers set_rwakers set_installed].
+Ltac sproj_in H := cbn [st pend cancelled installed rootq pcs token wakers rwakers latched running merged dropped delivered
+                        set_pc set_st set_rootq set_token set_wakers set_rwakers set_installed] in H.
 
 Lemma not_holder s t : thread_inv s t -> token_pc (pcs s t) = false -> token s <> Some (Some t).
 Proof. intros (T & _) H E. apply T in E. congruence. Qed.
@@ -298,7 +314,7 @@ Qed.
 Lemma begin_preserves c s t k s' : Inv c s -> valid_tid t -> begin s t k = Some s' -> Inv c s'.
 Proof.
   intros I V B. unfold begin in B. destruct (pcs s t) eqn:Hpc; try discriminate.
-  destruct k as [v q|floor| |q|q|q].
+  destruct k as [v q|floor| |q|q|q|q].
   - destruct (qos_ok q) eqn:Q; [|discriminate]. injection B as <-. apply qos_ok_range in Q.
     apply Inv_other_move; rewrite ?Hpc; auto. intros q0 E. injection E as <-. exact Q.
   - destruct (0 <? rootq s) eqn:R; [|discriminate]. injection B as <-. apply Z.ltb_lt in R.
@@ -322,6 +338,8 @@ Proof.
       * apply (thread_other s _ t u N (T u)); sproj; [apply upd_other; exact N | | tauto | tauto].
         rewrite K. split; intros E; [injection E as E; congruence | discriminate].
   - injection B as <-. apply Inv_other_move; rewrite ?Hpc; auto. discriminate.
+  - destruct (qos_ok q) eqn:Q; [|discriminate]. injection B as <-. apply qos_ok_range in Q.
+    apply Inv_other_move; rewrite ?Hpc; auto. intros q0 E. injection E as <-. exact Q.
   - destruct (qos_ok q) eqn:Q; [|discriminate]. injection B as <-. apply qos_ok_range in Q.
     apply Inv_other_move; rewrite ?Hpc; auto. intros q0 E. injection E as <-. exact Q.
   - destruct (qos_ok q) eqn:Q; [|discriminate]. injection B as <-. apply qos_ok_range in Q.
@@ -435,10 +453,13 @@ Qed.
 Lemma step_sflags c s t q s' : Inv c s -> pcs s t = PS_flags q -> gstep c s t = Some s' -> Inv c s'.
 Proof.
   intros I Hpc B. unfold gstep in B. rewrite Hpc in B. injection B as <-.
+  assert (Mv : forall p', waker_pc p' = true -> token_pc p' = false -> rwaker_pc p' = false -> qos_of p' = Some q -> Inv c (set_pc s t p')).
+  { intros p' W1 W2 W3 W4. destruct I as [IG T]. destruct (T t) as (_ & _ & _ & _ & T5 & _). rewrite Hpc in T5.
+    apply Inv_other_move; rewrite ?Hpc; auto; [split; [exact IG|exact T] | rewrite W4; exact T5]. }
+  destruct (installed s) eqn:Ins; cbn [negb]; [|apply Mv; reflexivity].
   destruct (cancelled s) eqn:Ca.
   - apply Inv_leave_wakers; rewrite ?Hpc; auto.
-  - destruct I as [IG T]. destruct (T t) as (_ & _ & _ & _ & T5 & _). rewrite Hpc in T5.
-    apply Inv_other_move; rewrite ?Hpc; auto. split; [exact IG|exact T].
+  - apply Mv; reflexivity.
 Qed.
 
 Lemma step_spend c s t q s' : Inv c s -> pcs s t = PS_pend q -> gstep c s t = Some s' -> Inv c s'.
@@ -752,10 +773,13 @@ Qed.
 Lemma step_rflags c s t q s' : Inv c s -> pcs s t = PR_flags q -> gstep c s t = Some s' -> Inv c s'.
 Proof.
   intros I Hpc B. unfold gstep in B. rewrite Hpc in B. injection B as <-.
+  assert (Mv : forall p', rwaker_pc p' = true -> token_pc p' = false -> waker_pc p' = false -> qos_of p' = Some q -> Inv c (set_pc s t p')).
+  { intros p' W1 W2 W3 W4. destruct I as [IG T]. destruct (T t) as (_ & _ & _ & _ & T5 & _). rewrite Hpc in T5.
+    apply Inv_other_move; rewrite ?Hpc; auto; [split; [exact IG|exact T] | rewrite W4; exact T5]. }
+  destruct (installed s) eqn:Ins; cbn [negb]; [|apply Mv; reflexivity].
   destruct (cancelled s) eqn:Ca.
   - apply Inv_leave_rwakers; rewrite ?Hpc; auto. intros _ X. congruence.
-  - destruct I as [IG T]. destruct (T t) as (_ & _ & _ & _ & T5 & _). rewrite Hpc in T5.
-    apply Inv_other_move; rewrite ?Hpc; auto. split; [exact IG|exact T].
+  - apply Mv; reflexivity.
 Qed.
 
 Lemma step_rpend c s t q s' : Inv c s -> pcs s t = PR_pend q -> gstep c s t = Some s' -> Inv c s'.
